@@ -116,6 +116,63 @@ func (h Header) TableColumnNames() []string {
 	return names
 }
 
+// equalFieldIdentifiers compares the texts of two expressions without regard
+// to letter case, except inside string literals: LAG(c, 1, 'x') and
+// LAG(c, 1, 'X') are different expressions.
+func equalFieldIdentifiers(s1 string, s2 string) bool {
+	if s1 == s2 {
+		return true
+	}
+
+	parts1 := splitStringLiterals(s1)
+	parts2 := splitStringLiterals(s2)
+	if len(parts1) != len(parts2) {
+		return false
+	}
+	for i := range parts1 {
+		if i%2 == 1 {
+			if parts1[i] != parts2[i] {
+				return false
+			}
+		} else if !strings.EqualFold(parts1[i], parts2[i]) {
+			return false
+		}
+	}
+	return true
+}
+
+// splitStringLiterals cuts the text of an expression into the parts outside
+// (even indices) and inside (odd indices) of single-quoted string literals.
+// Quoted identifiers are skipped so that a quotation mark in them does not
+// start a literal.
+func splitStringLiterals(s string) []string {
+	parts := make([]string, 0, 3)
+	start := 0
+	var quote byte = 0
+	for i := 0; i < len(s); i++ {
+		c := s[i]
+		switch {
+		case quote != 0:
+			if c == '\\' {
+				i++
+			} else if c == quote {
+				if quote == '\'' {
+					parts = append(parts, s[start:i])
+					start = i
+				}
+				quote = 0
+			}
+		case c == '\'':
+			parts = append(parts, s[start:i+1])
+			start = i + 1
+			quote = c
+		case c == '`':
+			quote = c
+		}
+	}
+	return append(parts, s[start:])
+}
+
 func (h Header) ContainsObject(obj parser.QueryExpression) (int, bool) {
 	switch obj.(type) {
 	case parser.FieldReference, parser.ColumnNumber:
@@ -134,7 +191,7 @@ func (h Header) ContainsObject(obj parser.QueryExpression) (int, bool) {
 			continue
 		}
 
-		if !strings.EqualFold(f.Identifier, column) {
+		if !equalFieldIdentifiers(f.Identifier, column) {
 			continue
 		}
 
